@@ -1,7 +1,7 @@
 (* C14 — property theorems only (statements + [exact]); proofs in Proofs.v / Harness.v. *)
 From Coq Require Import List NArith ZArith Bool Znumtheory Lia.
 From V.Base Require Import Hex BigEndian.
-From V.C14 Require Import Model Bytes Proofs Text Curve Jacobian Harness.
+From V.C14 Require Import Model Bytes Proofs Text Curve Jacobian GenOrder Scalar Assoc Harness.
 Import ListNotations.
 Local Open Scope Z_scope.
 
@@ -182,6 +182,67 @@ Theorem C14_jacobian_add : forall X1 Y1 Z1 X2 Y2 Z2 x1 y1 x2 y2 l,
   jrep (jadd (X1, Y1, Z1) (X2, Y2, Z2)) (l * l - x1 - x2) (l * (x1 - (l * l - x1 - x2)) - y1).
 Proof. exact jadd_rep. Qed.
 Print Assumptions C14_jacobian_add.
+
+(* ---- from the curve layer to the exponent layer. The ONLY hypothesis of the *_assuming_assoc theorems
+   is associativity of the model's affine law on curve points (written out in each statement); the pairing
+   side is abstract (bilinear, non-degenerate). ---- *)
+Definition g1_assoc : Prop := forall a b c, g1_pt a -> g1_pt b -> g1_pt c ->
+  g1_add (g1_add a b) c = g1_add a (g1_add b c).
+
+(* Jacobian Double / Add (curve.go, all cases: infinity, equal points, opposite points, chord) compute the
+   affine law on well-formed values — no hypothesis *)
+Theorem C14_jacobian_double_all : forall J, jok J -> jok (jdouble J) /\ j_to_g1 (jdouble J) = g1_double (j_to_g1 J).
+Proof. exact jdouble_val. Qed.
+Theorem C14_jacobian_add_all : forall J1 J2, jok J1 -> jok J2 ->
+  jok (jadd J1 J2) /\ j_to_g1 (jadd J1 J2) = g1_add (j_to_g1 J1) (j_to_g1 J2).
+Proof. exact jadd_val. Qed.
+(* R * g1 = O, by evaluating the model of the code's double-and-add — no hypothesis *)
+Theorem C14_order_times_generator : g1_scalar_mult R gen = G1Inf.
+Proof. exact order_times_gen. Qed.
+Print Assumptions C14_jacobian_add_all.
+
+(* k*P by repeated addition is a homomorphism in k *)
+Theorem C14_scalar_add_assuming_assoc : g1_assoc -> forall a b Q, 0 <= a -> 0 <= b -> g1_pt Q ->
+  zmul (a + b) Q = g1_add (zmul a Q) (zmul b Q).
+Proof. exact zmul_add. Qed.
+Theorem C14_scalar_mul_assuming_assoc : g1_assoc -> forall a b Q, 0 <= a -> 0 <= b -> g1_pt Q ->
+  zmul (a * b) Q = zmul a (zmul b Q).
+Proof. exact zmul_mul. Qed.
+(* curve.go's double-and-add loop (the code of Sign) computes k*P *)
+Theorem C14_double_and_add_assuming_assoc : g1_assoc -> forall k Q, 0 < k -> g1_pt Q ->
+  g1_scalar_mult k Q = zmul k Q.
+Proof. exact scalar_mult_is_zmul. Qed.
+(* the generator has order exactly R: scalars act modulo R, and a*g1 = b*g1 only if a = b mod R *)
+Theorem C14_order_assuming_assoc : g1_assoc -> forall k, 0 <= k -> zmul k gen = zmul (k mod R) gen.
+Proof. exact zmul_mod. Qed.
+Theorem C14_generator_injective_assuming_assoc : g1_assoc -> forall a b, exp_g1 a = exp_g1 b <-> a mod R = b mod R.
+Proof. exact exp_g1_eq. Qed.
+(* Sign(sk, m) with H(m) = h*g1 is the element with discrete logarithm sign_exp R sk h = sk*h mod R:
+   the exponent layer (C14_unique, C14_complete_bn256, C14_generic_bn256) speaks about these curve points *)
+Theorem C14_sign_is_exponent_assuming_assoc : g1_assoc -> forall sk h, 0 < sk -> 0 <= h ->
+  g1_scalar_mult sk (zmul h gen) = zmul (sign_exp R sk h) gen.
+Proof. exact sign_is_sign_exp. Qed.
+(* ... and with a bilinear non-degenerate pairing on <g1> x G2 the verification equation holds, among the
+   points of <g1>, exactly for the point Sign computes *)
+Theorem C14_unique_on_curve_assuming_assoc : g1_assoc ->
+  forall (A2 AT : Type) (exp2 : Z -> A2) (expT : Z -> AT) (pair : g1 -> A2 -> AT),
+  (forall a b, expT a = expT b <-> a mod R = b mod R) ->
+  (forall a b, pair (exp_g1 a) (exp2 b) = expT (a * b)) ->
+  forall sk h sigma, 0 < sk -> (exists s, sigma = exp_g1 s) ->
+  (pair sigma (exp2 1) = pair (exp_g1 h) (exp2 sk) <-> sigma = g1_scalar_mult sk (exp_g1 h)).
+Proof. exact unique_on_curve. Qed.
+Print Assumptions C14_unique_on_curve_assuming_assoc.
+
+(* associativity itself: proved in the generic case (all four additions are chords) *)
+Theorem C14_g1_assoc_generic : forall x1 y1 x2 y2 x3 y3,
+  g1_pt (G1Aff x1 y1) -> g1_pt (G1Aff x2 y2) -> g1_pt (G1Aff x3 y3) ->
+  x1 <> x2 -> x2 <> x3 ->
+  xcoord (g1_add (G1Aff x1 y1) (G1Aff x2 y2)) <> Some x3 ->
+  xcoord (g1_add (G1Aff x2 y2) (G1Aff x3 y3)) <> Some x1 ->
+  g1_add (g1_add (G1Aff x1 y1) (G1Aff x2 y2)) (G1Aff x3 y3) =
+  g1_add (G1Aff x1 y1) (g1_add (G1Aff x2 y2) (G1Aff x3 y3)).
+Proof. exact assoc_generic. Qed.
+Print Assumptions C14_g1_assoc_generic.
 
 (* ---- the code before the fixes: the property was false (witnesses re-checked by the kernel) ---- *)
 Theorem C14_overlong_refuted :
